@@ -2436,7 +2436,11 @@ class Tuplet(TimedObject):
         if note:
             if note.start:
                 #  remove the tuplet from the current start time
-                if self.start_note and self.start_note.start:
+                if (
+                    self.start_note
+                    and self.start_note.start
+                    and self.start is self.start_note.start
+                ):
                     self.start_note.start.remove_starting_object(self)
             # else:
             #     warnings.warn('Note has no start time')
@@ -2453,7 +2457,11 @@ class Tuplet(TimedObject):
         # make sure we received a note
         if note:
             if note.end:
-                if self.end_note and self.end_note.end:
+                if (
+                    self.end_note
+                    and self.end_note.end
+                    and self.end is self.end_note.end
+                ):
                     #  remove the tuplet from the currentend time
                     self.end_note.end.remove_ending_object(self)
             # else:
